@@ -128,17 +128,25 @@ def run(tier, seed, only=None):
     rep = Report('C22', 'fault_enumeration',
                  'Shared caches are wrapped so that an adversary acts before each access of the thread under test (nothing / delete the key / install '
                  'another thread\'s legitimate entry); the adversary schedule is symbolic and CrossHair explores every schedule over the real query '
-                 'pipeline (each path one concrete run). Asserted: same SQL and arguments as single-threaded, no spurious exception.')
+                 'pipeline (each path one concrete run). Asserted: same SQL and arguments as single-threaded, no spurious exception. Second family: the preemption point inside a query method (count, order_by(None), random, bulk delete ...) is symbolic; a real second thread runs the same location to completion there; both threads must produce their single-threaded SQL.')
     rep.fn(core.Query.__init__, core.Query._get_translator, core.Query._construct_sql_and_arguments, core.string2ast, asttranslation.create_extractors,
            decompiling.decompile, core.adapt_sql)
     T = 150 if tier == 'quick' else 900
+    from checks import h_c22 as h
     specs = [dict(module='checks.h_c22', fn='adversary_q%d' % i, cond_timeout=T, path_timeout=T / 2, setup='setup') for i in range(6)]
     specs += [dict(module='checks.h_c22', fn='adversary_late_q%d' % i, cond_timeout=T, path_timeout=T / 2, setup='setup') for i in range(6)]
+    acts = [n for n, _ in h.ACTS]
+    specs += [dict(module='checks.h_c22', fn='preempt_%s' % n, cond_timeout=T, path_timeout=T / 2, setup='setup') for n in acts]
+    # the SQLite write lock (provider.transaction_lock) is process-wide state too: under every placement of driver faults a session releases it
+    # exactly as often as it acquired it (a second release would free the lock ANOTHER thread holds).  Shared with C19 (its quick bounds).
+    specs += [dict(module='checks.h_c19', fn=f, cond_timeout=T, path_timeout=T / 2, setup='setup') for f in (('file_imm',) if tier == 'quick' else ('file_imm', 'file_opt', 'file_ro'))]
     if only: specs = [s for s in specs if only in s['fn']]
     ch.run_harnesses(rep, specs, classify)
     if not only: cross_thread(rep); thread_local_state(rep)
     rep.extra = {'fault_points': 8, 'faults_injected': 5 ** 4 * 12 * 2}
     rep.bounds = {'adversary': '4 actions (nothing / delete the key / install the other thread\'s entry / a real second thread runs the same location to completion before / right after the access) around each of accesses 1-4 (adversary_q*) and 5-8 (adversary_late_q*) of the shared caches (of 4-20 per query), cold and warm start',
+                  'preemption': 'a real second thread runs the same program location from start to end at the k-th preemption point inside a query method of the first thread (k symbolic, 0 <= k < %d): '
+                                'every entry into a pony function and every %d-th entry into any other Python function (copy.deepcopy ...); methods: %s' % (h.KMAX, h.STRIDE, ', '.join(n for n, _ in h.ACTS)),
                   'queries': '6 program locations (pinned slice bounds, plain parameters, string query, index, filter/order_by chain, raw_sql fragment), two parameter vectors'}
     rep.assumptions = ['single dict operations are atomic under the GIL, so adversary-before-each-access covers every schedule with respect to one dictionary',
                        'the adversary only installs entries another thread running the same program location would legitimately have written',
